@@ -884,14 +884,17 @@ def tagmap_layer(run, rng, tier, model):
                     inn = sorted([(TM.tag_value_of(("p", t, None)), c) for (t, c) in TM.rebuilt_tree_nodes(me["v"], me["kids"])], key=repr) if r["consumed"] == len(me["data"]) else None
                 if inn is None or outn is None:
                     run.count("tagmap_nothing_lost_not_evaluated")
-                elif inn != outn and (sorted(t for t, c in inn) != sorted(t for t, c in outn) or nontrivial_contents(inn) != nontrivial_contents(outn)):
-                    # (same tags, same non-trivial contents, but an EMPTY TLV re-encoded as 00 -- an empty constructed BIT STRING, an
-                    # INTEGER / ENUMERATED without contents octets accepted as 0: lenient decoding, C03's subject -- or a BOOLEAN with
-                    # a non-canonical TRUE re-encoded as ff: counted below)
+                elif sorted(t for t, c in inn) != sorted(t for t, c in outn) and nontrivial_contents(inn) != nontrivial_contents(outn):
+                    # a TLV of the accepted input has no counterpart in the value (or the value holds one the input has not), and
+                    # its contents are not there either.  (Either difference ALONE has a legitimate cause when a member TLV is put
+                    # where a member of another kind bears the same tag: a string member decodes the CONSTRUCTED form, so the TLV
+                    # of an EXPLICIT wrapper or an empty constructed TLV becomes one primitive string with the same contents; an
+                    # empty INTEGER / BIT STRING comes back as 00, a BOOLEAN of any length or value as ff: lenient decoding, C03's
+                    # subject.  Both are counted below.)
                     run.violation("oracle:tagmap:value-lost", dict(rep, what="RC_OK with %d octets consumed, but the value does not hold what was accepted: %d TLVs in, %d TLVs in the re-encoding (a member decoded twice keeps one value)" % (r["consumed"], len(inn), len(outn)),
                                                                    tlvs_in=[(t, (c.hex() if c is not None else None)) for t, c in inn][:40], tlvs_out=[(t, (c.hex() if c is not None else None)) for t, c in outn][:40]))
                 elif inn != outn:
-                    run.count("tagmap_nothing_lost_empty_renormalised")
+                    run.count("tagmap_nothing_lost_%s" % ("reframed_same_contents" if nontrivial_contents(inn) == nontrivial_contents(outn) else "same_tlvs_contents_renormalised"))
                 else:
                     run.count("tagmap_nothing_lost_ok")
             # faithfulness of the lookup model on the emitted tables
@@ -911,6 +914,12 @@ def tagmap_layer(run, rng, tier, model):
                     bad = "the lookup model selects alternative %s, the C answers %s / present=%s" % (exp[1], r["rc"], pres)
                 elif exp[0] == "OK" and tm["kind"] != "CHOICE" and not (r["rc"] == "OK" and r["consumed"] == len(me["data"]) and pres == exp[1]):
                     bad = "the lookup model decodes members %s, the C answers %s, %d of %d octets, members present %s" % (exp[1], r["rc"], r["consumed"], len(me["data"]), pres)
+                if not bad and exp is not None and exp[0] == "OK" and derok and r["ck"] == 0 and not me.get("ext"):
+                    # every TLV was given to a member of its own kind: then the value holds exactly the TLVs of the input
+                    i2, o2 = TM.ber_nodes(me["data"][:r["consumed"]]), TM.ber_nodes(bytes.fromhex(r["der"]))
+                    if i2 is not None and o2 is not None and i2 != o2:
+                        run.violation("oracle:tagmap:value-changed", dict(rep, what="every TLV sits on a member of its own kind (lookup model), the decode is RC_OK, but the re-encoding does not hold the same TLVs",
+                                                                          tlvs_in=[(t, (c.hex() if c is not None else None)) for t, c in i2][:40], tlvs_out=[(t, (c.hex() if c is not None else None)) for t, c in o2][:40]))
                 if bad:
                     run.violation("model:tagmap:%s" % tm["kind"].lower(), dict(rep, what="Rt/SafetyTagMap.v run on the emitted tables and the C disagree: " + bad, model_line=ml, model=mline, tables=tm),
                                   no_input=False)
